@@ -227,7 +227,8 @@ def run_scenario(sc):
         for h in sc.get("prehist", []):
             q = DNSQuestion(h["name"], h["type"], const._CLASS_IN)
             zc.question_history.add_question_at_time(q, float(now0 - h["age"]), {mk_record(s, created=now0 - 1) for s in h.get("known", [])})
-        info = AsyncServiceInfo(TYPE_, sc.get("name", NAME))
+        # `server=`: an application that already knows (a spelling of) the host, or re-uses an info object
+        info = AsyncServiceInfo(TYPE_, sc.get("name", NAME), server=sc["server"]) if sc.get("server") else AsyncServiceInfo(TYPE_, sc.get("name", NAME))
         w = Watch(sim, zc, info)
 
         for ev in sc.get("events", []):
@@ -344,7 +345,8 @@ def impl_line(b):
 
 
 def model_line(sc, obs):
-    parts = ["c18", C.hs(sc.get("name", NAME)), str(int(sc["timeout"])), str(sc.get("forced", 0)), str(len(obs["blocks"]))]
+    parts = ["c18", C.hs(sc.get("name", NAME)), str(int(sc["timeout"])), str(sc.get("forced", 0)),
+             ("s" + C.hs(sc["server"])) if sc.get("server") else "-", str(len(obs["blocks"]))]
     for b in obs["blocks"]:
         cache = "%d %s" % (len(b["cache"]), " ".join(r["line"] for r in b["cache"]))
         hist = "%d %s" % (len(b["hist"]), " ".join(b["hist"]))
@@ -409,7 +411,8 @@ def oracle(sc, obs):
     for b in blocks:
         for r in b["cache"] + b["recs"]:
             reads.append((r, b["now"]))
-    if (fin["server"], fin["port"]) != (None, None) or fin["weight"] or fin["priority"]:
+    untouched = (fin["server"], fin["port"], fin["priority"], fin["weight"]) == (sc.get("server") or None, None, 0, 0)   # as constructed
+    if not untouched:
         ok = any(r["kind"] == "DNSService" and r["name"].lower() == name.lower() and not expired(r, t)
                  and r["srv"] == (fin["server"], fin["port"], fin["priority"], fin["weight"]) for r, t in reads)
         if not ok:
@@ -536,6 +539,8 @@ def gen_scenario(rng, idx):
 
     host = rng.choice(HOSTS)
     other = [h for h in HOSTS if h != host][0]
+    if sc["via"] is None and rng.random() < 0.08:
+        sc["server"] = rng.choice(HOST_SPELLINGS[rng.choice([host, host, other])] + [host.upper()])
     # ---- cache before the lookup
     mode = rng.random()
     if mode < 0.85:
